@@ -93,6 +93,10 @@ func drawTable(rc *RunCtx) (refTable, []string) {
 		n := 1 + ch.Pick(4, 0)
 		for i := 0; i < n; i++ {
 			path := walletPatterns[ch.Pick(len(walletPatterns), 0)]
+			if i >= 2 && ch.Pick(3, 0) == 2 {
+				// the wallet part of an entry written earlier (not the previous one), spelled the same way again
+				path, _ = splitPath(rt[c][ch.Pick(i-1, 0)].Path)
+			}
 			if ap := accountPatterns[ch.Pick(len(accountPatterns), 0)]; ap != "" {
 				path += "/" + ap
 			}
